@@ -48,7 +48,11 @@ func retConst(d *DPath, idx int) (string, bool) {
 		return t.C.ExactString(), true
 	}
 	// a closed arithmetic term (e.g. 1 + int64(2) after the path fixed a phi) folds to its value
-	if v, ok := evalTerm(t, map[string]*big.Int{}); ok {
+	asg := tableAsg
+	if asg == nil {
+		asg = map[string]*big.Int{}
+	}
+	if v, ok := evalTerm(t, asg); ok {
 		return v.String(), true
 	}
 	return t.String(), false
@@ -349,6 +353,19 @@ func partialFill(d *DPath, al *ssa.Alloc, size int64) (int64, bool) {
 				}
 				work = append(work, view{x, n})
 			case *ssa.Call:
+				if b, isB := x.Call.Value.(*ssa.Builtin); isB && b.Name() == "copy" && x.Call.Args[0] == cur.v {
+					// copy(buffer, src) where src is a buffer of k bytes filled completely by the one
+					// io.ReadFull(r, src) on this path
+					if !onPath[x] {
+						continue
+					}
+					n, ok := fullyReadLen(d, x.Call.Args[1], onPath)
+					if !ok || k >= 0 || n > cur.len {
+						return 0, false
+					}
+					k = n
+					continue
+				}
 				sc := x.Call.StaticCallee()
 				if sc == nil {
 					return 0, false
@@ -375,6 +392,83 @@ func partialFill(d *DPath, al *ssa.Alloc, size int64) (int64, bool) {
 		return 0, false
 	}
 	return k, true
+}
+
+func isByteArrayAlloc(al *ssa.Alloc) bool {
+	if al.Comment == "slicelit" || al.Comment == "varargs" || al.Comment == "complit" {
+		return false // a literal: its bytes are written element by element
+	}
+	at, ok := al.Type().Underlying().(*types.Pointer).Elem().Underlying().(*types.Array)
+	if !ok {
+		return false
+	}
+	b, ok := at.Elem().Underlying().(*types.Basic)
+	return ok && b.Kind() == types.Uint8
+}
+
+// fullyReadLen: src is make([]byte, n) with n known on this path (a constant, or a constant-table
+// entry for the row being built) whose only writer is io.ReadFull(r, src) on the path.
+func fullyReadLen(d *DPath, src ssa.Value, onPath map[ssa.Instruction]bool) (int64, bool) {
+	var lenV ssa.Value
+	switch m := src.(type) {
+	case *ssa.MakeSlice:
+		lenV = m.Len
+	case *ssa.Slice:
+		if al, ok := m.X.(*ssa.Alloc); ok && al.Comment == "makeslice" && m.Low == nil && m.High == nil {
+			if at, ok := al.Type().Underlying().(*types.Pointer).Elem().Underlying().(*types.Array); ok {
+				return at.Len(), readFullOnly(src, onPath)
+			}
+		}
+		return 0, false
+	default:
+		return 0, false
+	}
+	asg := tableAsg
+	if asg == nil {
+		asg = map[string]*big.Int{}
+	}
+	v, ok := evalTerm(d.Env.Term(lenV), asg)
+	if !ok || v.Sign() <= 0 {
+		return 0, false
+	}
+	return v.Int64(), readFullOnly(src, onPath)
+}
+
+func readFullOnly(src ssa.Value, onPath map[ssa.Instruction]bool) bool {
+	if src.Referrers() == nil {
+		return false
+	}
+	n := 0
+	for _, r := range *src.Referrers() {
+		switch x := r.(type) {
+		case *ssa.DebugRef:
+		case *ssa.Call:
+			if b, isB := x.Call.Value.(*ssa.Builtin); isB {
+				if b.Name() == "copy" && x.Call.Args[0] == src {
+					return false
+				}
+				continue
+			}
+			sc := x.Call.StaticCallee()
+			if sc == nil {
+				return false
+			}
+			if sc.String() == "io.ReadFull" && x.Call.Args[1] == src {
+				if onPath[x] {
+					n++
+				}
+				continue
+			}
+			if strings.Contains(sc.String(), "encoding/binary") && strings.HasPrefix(sc.Name(), "Uint") {
+				continue
+			}
+			return false
+		case *ssa.MakeInterface:
+		default:
+			return false
+		}
+	}
+	return n == 1
 }
 
 func varintReadLeaf(d *DPath, stream bool) string {
@@ -424,7 +518,7 @@ func varintReadLeaf(d *DPath, stream bool) string {
 						hi = v.Int64()
 					}
 				}
-				if al, isAlloc := a.X.(*ssa.Alloc); isAlloc && al.Comment == "makeslice" {
+				if al, isAlloc := a.X.(*ssa.Alloc); isAlloc && (al.Comment == "makeslice" || isByteArrayAlloc(al)) {
 					if at, ok := al.Type().Underlying().(*types.Pointer).Elem().Underlying().(*types.Array); ok {
 						nread = fmt.Sprint(at.Len())
 						// a zeroed buffer of which only the first k bytes were filled by the one
